@@ -55,8 +55,10 @@ def rule_eq_fields(ctx: Ctx) -> None:
     ctx.touch(m, fn)
     other = func_params(fn)[1]
     can = [n for n in ast.walk(fn) if isinstance(n, ast.Assign) and isinstance(n.value, ast.Call) and call_attr(n.value) == "canonical_form"]
-    sides = {("self" if "self." in norm(n.value) else other if f"{other}." in norm(n.value) else "?") for n in can}
-    both_stab = all("to_stabilizer()" in norm(n.value) for n in can)
+    from ..core import expand as _expand
+    canv = {id(n): norm(_expand(fn, n.value)) for n in can}      # the argument may have been given a name first (t = x.data.to_stabilizer())
+    sides = {("self" if "self." in canv[id(n)] else other if f"{other}." in canv[id(n)] else "?") for n in can}
+    both_stab = all("to_stabilizer()" in canv[id(n)] for n in can)
     cmp = [n for n in ast.walk(fn) if isinstance(n, ast.Compare) and isinstance(n.ops[0], ast.Eq)
            and {norm(n.left), norm(n.comparators[0])} == {norm(x.targets[0]) for x in can}]
     if sides == {"self", other} and both_stab and cmp:
